@@ -362,6 +362,78 @@ func (f *Func) SameValue(a, b ast.Expr) bool {
 		// same variable: only identical if never reassigned (params, or single def)
 		return len(f.Defs(oa)) <= 1
 	}
+	// two evaluations of the same side-effect-free expression over variables that are never
+	// reassigned (filepath.Join(prefix, entry.Name()) computed twice)
+	if va.Idx < 0 && vb.Idx < 0 {
+		return f.sameStableExpr(va.E, vb.E, 0)
+	}
+	return false
+}
+
+// sameStableExpr: structurally equal expressions built from constants, calls to
+// functions of the standard library's path/strings packages and methods named
+// Name, and variables with at most one definition.
+func (f *Func) sameStableExpr(a, b ast.Expr, depth int) bool {
+	if depth > 6 {
+		return false
+	}
+	info := f.Info()
+	a, b = ast.Unparen(f.ResolveDeep(a).E), ast.Unparen(f.ResolveDeep(b).E)
+	switch x := a.(type) {
+	case *ast.Ident:
+		y, ok := b.(*ast.Ident)
+		if !ok {
+			return false
+		}
+		oa, ob := objOf(info, x), objOf(info, y)
+		return oa != nil && oa == ob && len(f.Defs(oa)) <= 1
+	case *ast.BasicLit:
+		y, ok := b.(*ast.BasicLit)
+		return ok && x.Value == y.Value
+	case *ast.SelectorExpr:
+		y, ok := b.(*ast.SelectorExpr)
+		return ok && x.Sel.Name == y.Sel.Name && info.Uses[x.Sel] == info.Uses[y.Sel] && f.sameStableExpr(x.X, y.X, depth+1)
+	case *ast.CallExpr:
+		y, ok := b.(*ast.CallExpr)
+		if !ok || len(x.Args) != len(y.Args) {
+			return false
+		}
+		fa, fb := calleeObj(info, x), calleeObj(info, y)
+		fn, isFn := fa.(*types.Func)
+		if !isFn || fa != fb {
+			return false
+		}
+		pure := false
+		if fn.Pkg() != nil {
+			switch fn.Pkg().Path() {
+			case "path/filepath", "path", "strings", "strconv":
+				pure = true
+			}
+		}
+		if fn.Name() == "Name" && len(x.Args) == 0 {
+			pure = true // accessor of a directory entry / file info
+		}
+		if !pure {
+			return false
+		}
+		if sx, ok := ast.Unparen(x.Fun).(*ast.SelectorExpr); ok {
+			sy, ok2 := ast.Unparen(y.Fun).(*ast.SelectorExpr)
+			if !ok2 {
+				return false
+			}
+			if _, isPkg := info.Uses[identOf(sx.X)].(*types.PkgName); !isPkg || identOf(sx.X) == nil {
+				if !f.sameStableExpr(sx.X, sy.X, depth+1) {
+					return false
+				}
+			}
+		}
+		for i := range x.Args {
+			if !f.sameStableExpr(x.Args[i], y.Args[i], depth+1) {
+				return false
+			}
+		}
+		return true
+	}
 	return false
 }
 
